@@ -16,7 +16,7 @@ EXPLANATION = (
     "max_iter<=3 on all paths) leaves everything except vertex poses and vertices[0].fixed unchanged."
 )
 BOUNDS = "graphs: {SE2,SE2,R2}, {SE3,SE3,R3}, {R2,R2}, {R3,R3} with odometry + landmark + a custom numerically differentiated edge; 20 query kinds; one step (inductive)"
-OUTSIDE = "bit-level floating point: equality is proved on exact real terms; identity of restored pose objects makes the numerical-Jacobian restore exact on the current tree"
+OUTSIDE = "bit-level floating point of everything except the numerical-differentiation restore (fp-restore cases: IEEE binary64 terms, bit-identical pose components); elsewhere equality is proved on exact real terms"
 ASSUMPTIONS = ["valid state: SE(2) angles in [-pi,pi), unit quaternions", "wrap / sqrt / trig contracts", "spsolve stub returns an arbitrary vector"]
 
 
@@ -278,9 +278,50 @@ def _optimize_free(max_iter):
     return fn
 
 
+def _fp_restore(kind):
+    """IEEE binary64: the numerical-differentiation fallback leaves every pose component bit-identical"""
+
+    def fn(P, g):
+        import numpy
+
+        np = P.np
+        with P.fp_mode(g):
+
+            def pose(name):
+                if kind == "R2":
+                    return g.PoseR2([P.fp(name + "0", -100, 100), P.fp(name + "1", -100, 100)])
+                if kind == "R3":
+                    return g.PoseR3([P.fp(name + "%d" % i, -100, 100) for i in range(3)])
+                if kind == "SE2":
+                    return g.PoseSE2([P.fp(name + "0", -100, 100), P.fp(name + "1", -100, 100)], P.fp(name + "th", -3.0, 3.0))
+                return g.PoseSE3([P.fp(name + "%d" % i, -100, 100) for i in range(3)], [P.fp(name + "q%d" % i, -1, 1) for i in range(4)])
+
+            class ConstEdge(g.BaseEdge):
+                def calc_error(self):
+                    return numpy.zeros(2)
+
+                def is_valid(self):
+                    return True
+
+            verts = [g.Vertex(0, pose("a")), g.Vertex(1, pose("b"))]
+            e = ConstEdge([0, 1], numpy.eye(2), None, vertices=verts)
+            before = [numpy.array(v.pose, copy=True) for v in verts]
+            J = g.BaseEdge.calc_jacobians(e)
+            P.check("two_jacobians", len(J) == 2)
+            for k, v in enumerate(verts):
+                P.check_bits("restored_bits_%d" % k, numpy.array(v.pose), before[k])
+            J2 = g.BaseEdge.calc_jacobians(e)
+            for k, v in enumerate(verts):
+                P.check_bits("restored_bits_again_%d" % k, numpy.array(v.pose), before[k])
+
+    return fn
+
+
 def cases(tier):
     out = []
     v = 1 if tier == "quick" else 3
+    for kind in POSE_KINDS:
+        out.append(Case("fp-restore-%s" % kind, _fp_restore(kind), timeout=120, old_timeout=120, validate=3, shadow=False))
     fams = POSE_KINDS
     for fam in fams:
         for which, ename in enumerate(["odom", "lmk", "custom"]):
